@@ -34,6 +34,8 @@ def setup(ctx):
     from smartquery import SqParser
     ctx.P = SqParser()
     ctx.M7 = monitors.TokenMonitor(ctx.P)
+    ctx.PC = SqParser(parse_cache={})          # a caching parser: the same erroneous text is resubmitted with other leading blank lines
+    ctx.M7C = monitors.TokenMonitor(ctx.PC)
 
 
 DIRECTED = [
@@ -130,10 +132,50 @@ def run_one(case, ctx, base_ok):
         text = case[1]
     else:
         _, text, _ = gram.render_layout(case[1], gram.Cyc(case[2]), comments=0.3, pools=POOLS)
-    M7 = ctx.M7
+    variant = hash(text) % 4
+    if variant == 1:
+        # resubmission on a caching parser: first the text itself, then the same text below two more blank lines
+        ctx.count('resubmissions_on_a_caching_parser')
+        ctx.M7C.begin()
+        first_exc = None
+        try:
+            ctx.PC.parse(text)
+        except Exception as e:
+            first_exc = e
+        last0 = ctx.M7C.last()
+        if first_exc is not None and ctx.M7C.lex_error is None and last0 not in ('nothing-pulled', None):
+            # the same erroneous program two blank lines further down: same token, line + 2 - whether or not the parser lexes it again
+            typ0, val0, start0, end0, _ = last0
+            line0 = 1 + text.count('\n', 0, start0)
+            try:
+                ctx.PC.parse('\n\r\n' + text)
+                msg2 = None
+            except Exception as e:
+                msg2 = str(e)
+            ctx.count('resubmitted_errors_checked')
+            if msg2 is None or not message_ok(msg2, text[start0:end0], val0, line0 + 2):
+                ctx.violation('syntax-error message of a resubmitted program (two more leading blank lines, caching parser): wrong line or token', case,
+                              detail={'text': text, 'first_message': str(first_exc), 'second_message': msg2, 'expected_line': line0 + 2})
+                return
+        text = '\n\r\n' + text
+        P, M7 = ctx.PC, ctx.M7C
+    else:
+        P, M7 = ctx.P, ctx.M7
     M7.begin()
     try:
-        ctx.P.parse(text)
+        if variant == 2:
+            try:
+                P.parse(text.rstrip())
+            except Exception:
+                pass
+            else:
+                ctx.count('accepted')
+                return                      # syntactically valid: whatever eval raises is not a syntax error
+            M7.begin()
+            ctx.count('errors_through_eval')
+            P.eval(text, {}, None, 10)
+        else:
+            P.parse(text)
     except Exception as e:
         exc = e
     else:
